@@ -189,7 +189,20 @@ def c15(run):
         "listed in known_findings.txt and re-observed on every run.")
 
 
+def c08(run):
+    from rules import r_cnt
+    P = run.prog('rel')
+    r_cnt.run(run, P)
+    run.min_instances('R-CNT-CON', 6)
+    run.assumptions = ASSUME_COMMON + ["the in-flight bound under all ACK/RST orders and losses and the FIFO order of held messages are NOT decided"]
+    return run.finish(
+        "Accounting discipline of session->con_active on every path: only ++/--/=0 write it; every decrement happens with a send-queue node in "
+        "hand (reached through a coap_queue_t* or with one known non-NULL); every increment is reached only on the below-the-limit arm of a "
+        "comparison with NSTART, and the two functions that first transmit an unreliable Confirmable count it. Necessary for the NSTART bound.")
+
+
 PROPS = {
+    'C08': c08,
     'C15': c15,
     'C16': c16,
     'C05': c05,
